@@ -263,3 +263,40 @@ def lemma_c03_unique_classification():
     hyp = z3.ForAll([b], z3.Implies(rank(b) < r, L1(b) == L2(b)))
     return [_ob("L-C03/step", "two locally consistent labellings agree on every job of rank r if they agree below r",
                 [acyclic, consistent(L1), consistent(L2), hyp], z3.ForAll([j], z3.Implies(rank(j) == r, L1(j) == L2(j))))]
+
+
+# ---------------------------------------------------------------------------------------------------
+def lemma_c08_exactly_once():
+    """L-C08: every row appended by a runner is, at every lock-free instant, in exactly one place (one node file or the
+    consolidated file), and is reported by exactly one collection round - for any number of node files, runners and rounds and any
+    interleaving at lock-operation granularity.
+
+    The atomic actions are the locked actions whose effect is proved on the real code (contracts/aggregator.py):
+      Append(f, x)  RAgg._append_result under f's lock: exactly one row x is added at the end of f, every other file unchanged
+                    (the header is re-created when f was absent or empty);
+      Move(f)       RAgg._move_results under f's lock, with the consolidated file's lock held by the round (RAgg.process_results):
+                    f is deleted, every row it held is returned once and appended once to the consolidated file, nothing else changes.
+    T-lock makes each of them atomic with respect to every other action on the same file; actions on different files commute.
+    State per row text x (multiset counts): N(x) occurrences in all node files together, P(x) in the consolidated file, A(x) appends
+    so far, R(x) times x was returned by a round.  c(x) = occurrences of x in the file being moved (0 <= c(x) <= N(x))."""
+    Row = z3.DeclareSort("Row")
+    N, P, A, R = (z3.Function(n_, Row, z3.IntSort()) for n_ in ("N", "P", "A", "R"))
+    N2, P2, A2, R2 = (z3.Function(n_ + "_n", Row, z3.IntSort()) for n_ in ("N", "P", "A", "R"))
+    c = z3.Function("c", Row, z3.IntSort())
+    x, y = z3.Consts("x y", Row)
+    inv = lambda N, P, A, R: z3.ForAll([x], z3.And(N(x) >= 0, P(x) >= 0, N(x) + P(x) == A(x), R(x) == P(x)))
+    init = z3.ForAll([x], z3.And(N(x) == 0, P(x) == 0, A(x) == 0, R(x) == 0))
+    append = z3.ForAll([x], z3.And(N2(x) == N(x) + z3.If(x == y, 1, 0), A2(x) == A(x) + z3.If(x == y, 1, 0), P2(x) == P(x), R2(x) == R(x)))
+    move = z3.And(z3.ForAll([x], z3.And(0 <= c(x), c(x) <= N(x))),
+                  z3.ForAll([x], z3.And(N2(x) == N(x) - c(x), P2(x) == P(x) + c(x), R2(x) == R(x) + c(x), A2(x) == A(x))))
+    drained = z3.ForAll([x], N(x) == 0)
+    return [
+        _ob("L-C08/init", "empty output directory: nothing appended, nothing collected", [init], inv(N, P, A, R)),
+        _ob("L-C08/append", "an append keeps 'every appended row is in exactly one place' and reports nothing", [inv(N, P, A, R), append], inv(N2, P2, A2, R2)),
+        _ob("L-C08/move", "moving a node file keeps it: rows leave the node files, enter the consolidated file once and are reported once",
+            [inv(N, P, A, R), move], inv(N2, P2, A2, R2)),
+        _ob("L-C08/exactly-once", "once no node file holds rows, every appended row is exactly once in the consolidated file and was reported exactly once",
+            [inv(N, P, A, R), drained], z3.ForAll([x], z3.And(P(x) == A(x), R(x) == A(x)))),
+        _ob("L-C08/never-lost", "at every instant a row that was appended is in a node file or in the consolidated file, never in neither and never more often than appended",
+            [inv(N, P, A, R)], z3.ForAll([x], z3.And(z3.Implies(A(x) >= 1, z3.Or(N(x) >= 1, P(x) >= 1)), N(x) + P(x) <= A(x), R(x) <= A(x)))),
+    ]
